@@ -3,6 +3,7 @@
 package main
 
 import (
+	"encoding/json"
 	"flag"
 	"fmt"
 	"os"
@@ -20,6 +21,7 @@ func main() {
 	dir := flag.String("dir", "", "verif dir (default: parent of the binary's dir)")
 	out := flag.String("out", "", "evidence output dir (default: <verif dir>/evidence)")
 	noSelf := flag.Bool("noselftest", false, "thorough tier without the reference-defect self-test")
+	dumpNames := flag.Bool("dumpnames", false, "write canon_names.json (ordered local names of every function of the reference tree) and exit")
 	flag.Parse()
 	if t := os.Getenv("VERIF_TIER"); t != "" && *tier == "" {
 		*tier = t
@@ -31,6 +33,10 @@ func main() {
 			*dir = "/verif"
 		}
 	}
+	if *dumpNames {
+		os.Exit(dumpCanonNames(*repo, *dir))
+	}
+	core.CanonFile = filepath.Join(*dir, "canon_names.json")
 	ck := props.Registry[*prop]
 	if ck == nil {
 		fmt.Fprintf(os.Stderr, "unknown property %q; have %s\n", *prop, strings.Join(props.IDs(), " "))
@@ -77,4 +83,32 @@ func main() {
 		}
 	}
 	os.Exit(rep.Finish(*dir, ck.Explain))
+}
+
+func dumpCanonNames(repo, dir string) int {
+	p, err := core.Load(core.LoadOpts{Repo: repo, Tags: "dae_stub_ebpf", Variant: "stub"})
+	if err != nil {
+		fmt.Fprintln(os.Stderr, err)
+		return 2
+	}
+	table := p.DumpNames()
+	if ov, err := core.RealBuildOverlay(repo); err == nil {
+		if pr, err := core.Load(core.LoadOpts{Repo: repo, Tags: "", Variant: "real", Overlay: ov, Pattern: "./control"}); err == nil {
+			for k, v := range pr.DumpNames() {
+				if _, ok := table[k]; !ok {
+					table[k] = v
+				}
+			}
+		} else {
+			fmt.Fprintln(os.Stderr, err)
+			return 2
+		}
+	}
+	raw, _ := json.MarshalIndent(table, "", " ")
+	if err := os.WriteFile(filepath.Join(dir, "canon_names.json"), raw, 0o644); err != nil {
+		fmt.Fprintln(os.Stderr, err)
+		return 2
+	}
+	fmt.Printf("canon_names.json: %d functions\n", len(table))
+	return 0
 }
